@@ -215,9 +215,67 @@ func c16Run(c *core.C) {
 		tok = nt
 		c16CheckToken(c, tok.B, id, done, right, wrong, lookups)
 	}
+	c16SharedSource(c, priv, right, wrong, id, lookups)
 	if c.Idx%97 == 0 {
 		c.Sample(map[string]any{"kind": "key-id history", "id": idText(id), "history": hist, "lookups_per_token": len(lookups)})
 	}
+}
+
+// c16SharedSource: ONE key source value is used for a sequence of tokens with different
+// identifiers (the case's id, none, another id); every answer must be what a fresh source
+// gives - a key source must not remember the previous lookup.
+func c16SharedSource(c *core.C, priv ed25519.PrivateKey, right, wrong ed25519.PublicKey, id *uint32, lookups []c16Lookup) {
+	other := uint32(7)
+	if id != nil {
+		other = *id + 1
+		if *id == 0xffffffff {
+			other = 0
+		}
+	}
+	ids := []*uint32{id, nil, &other}
+	toks := []*lib.Token{}
+	for i, tid := range ids {
+		t, err := lib.Build(priv, lib.NewDetRand(c.Seed, fmt.Sprintf("c16-shared-%d-%d", c.Idx, i)), []ast.Block{{Facts: []ast.Pred{ast.P("right", ast.Str("file1"), ast.Str("read"))}}}, tid)
+		if err != nil {
+			return
+		}
+		toks = append(toks, t)
+	}
+	order := []int{0, 1, 0, 2, 1, 2, 0}
+	for _, l := range lookups {
+		src := biscuit.WithRootPublicKeys(l.keys, l.def)
+		trace := []string{}
+		for step, ti := range order {
+			c.Eval(1)
+			tid := ids[ti]
+			want, wantOK := refSelect(tid, l)
+			var err error
+			pi := lib.Try(func() { _, err = toks[ti].B.AuthorizerFor(src) })
+			trace = append(trace, fmt.Sprintf("id=%s -> %v", idText(tid), err))
+			wit := map[string]any{"lookup": l.name, "sequence_of_token_ids": trace, "step": step}
+			if pi != nil {
+				c.Violate("lookup-panic/"+pi.Site, pi.Msg, wit)
+				break
+			}
+			bad := ""
+			switch {
+			case !wantOK && err == nil:
+				bad = "accepted although no key is registered for this token's identifier"
+			case !wantOK && !errors.Is(err, biscuit.ErrNoPublicKeyAvailable):
+				bad = fmt.Sprintf("expected ErrNoPublicKeyAvailable, got %v", err)
+			case wantOK && want.Equal(right) && err != nil:
+				bad = fmt.Sprintf("the registered key was not used: %v", err)
+			case wantOK && !want.Equal(right) && err == nil:
+				bad = "accepted with a key other than the signer's"
+			}
+			if bad != "" {
+				c.Violate("shared-key-source-remembers", fmt.Sprintf("one key source reused across tokens, step %d (id %s, %s): %s", step, idText(tid), l.name, bad), wit)
+				break
+			}
+		}
+		c.NT("shared/" + idText(id) + "/" + l.name)
+	}
+	c.Count("shared_source_sequences", len(lookups))
 }
 
 func init() {
